@@ -2,5 +2,4 @@ package main
 
 func genCpuTables(l *loader) {}
 func genAsm(l *loader)       {}
-func genHeader(l *loader)    {}
 func genGlobals(l *loader)   {}
